@@ -74,6 +74,7 @@ func run(c *vf.Ctx) {
 	c.Set("lattice_values", len(V))
 	genericUUID(c, V)
 	uuidV1(c, V)
+	setterHistories(c)
 	uuidV1Setters(c)
 	uuidV2(c, V)
 	uuidV2Setters(c)
@@ -902,6 +903,79 @@ func uuidV8(c *vf.Ctx, V [][16]byte) {
 			return fmt.Sprintf("UUIDv8{Variant:%x}.SetData(%x): Marshal = %x want %x; parsed back Data=%x Variant=%x err=%v panic=%v %s %s", vr, data, m, v, back.GetData(), back.Variant, err, pan, msg, where)
 		})
 	})
+}
+
+// setterHistories: on a version-1 / version-2 value that already holds a complete identifier (decoded, or built by
+// setters), each setter replaces ITS field and nothing else - whatever the value held before and whatever the order
+// of the calls: all ordered pairs of two identifiers (earlier/later time, other clock sequence, other node), the
+// second applied through the setters in every order; the result marshals like a fresh value given the second
+// identifier's fields.
+func setterHistories(c *vf.Ctx) {
+	l := &local{c, map[string]int64{}}
+	defer l.flush()
+	type id1 struct {
+		t    uint64
+		cs   uint16
+		node [6]byte
+	}
+	ids := []id1{
+		{0x01B21DD213814000, 0x0abc, [6]byte{1, 2, 3, 4, 5, 6}},
+		{0x01B21DD213814001, 0x0fff, [6]byte{0xff, 0xfe, 0xfd, 0xfc, 0xfb, 0xfa}},
+		{0x0000000000000002, 0x0000, [6]byte{}},
+		{0x0FFFFFFFFFFFFFFF, 0x0001, [6]byte{0, 0, 0, 0, 0, 1}},
+	}
+	perms := [][3]int{{0, 1, 2}, {0, 2, 1}, {1, 0, 2}, {1, 2, 0}, {2, 0, 1}, {2, 1, 0}}
+	for ai, a := range ids {
+		for bi, b := range ids {
+			if ai == bi {
+				continue
+			}
+			for how := 0; how < 2; how++ {
+				for _, pm := range perms {
+					var got, want []byte
+					var gerr, werr error
+					var desc string
+					pn, msg, where := vf.Try(func() {
+						src := uuid_v1.UUIDv1{Time: a.t, ClockSeq: a.cs, NodeID: a.node}
+						u := uuid_v1.UUIDv1{}
+						if how == 0 {
+							raw, _ := src.Marshal()
+							u.FromBytes(raw)
+							desc = "decoded"
+						} else {
+							u.SetNodeID(a.node[:])
+							u.SetClockSequence(a.cs)
+							u.SetTime(src.GetTime())
+							desc = "built by setters"
+						}
+						tb := (&uuid_v1.UUIDv1{Time: b.t}).GetTime()
+						for _, k := range pm {
+							switch k {
+							case 0:
+								u.SetTime(tb)
+							case 1:
+								u.SetClockSequence(b.cs)
+							case 2:
+								u.SetNodeID(b.node[:])
+							}
+						}
+						got, gerr = u.Marshal()
+						f := uuid_v1.UUIDv1{}
+						f.SetNodeID(b.node[:])
+						f.SetClockSequence(b.cs)
+						f.SetTime(tb)
+						want, werr = f.Marshal()
+					})
+					c.Evals(1)
+					c.Case([]byte("v1.setters"), []byte(fmt.Sprint(ai, bi, how, pm)))
+					l.Check("C13/uuid_v1/history/setters-on-a-value-that-held-another-identifier-give-what-a-fresh-value-gives", !pn && gerr == nil && werr == nil && bytes.Equal(got, want), func() string {
+						return fmt.Sprintf("UUIDv1 holding {Time:%#x ClockSeq:%#x Node:%x} (%s), then SetTime/SetClockSequence/SetNodeID of {Time:%#x ClockSeq:%#x Node:%x} in order %v: Marshal = %x (%v); a fresh value given these fields: %x (%v) (panic=%v %s %s)",
+							a.t, a.cs, a.node, desc, b.t, b.cs, b.node, pm, got, gerr, want, werr, pn, msg, where)
+					})
+				}
+			}
+		}
+	}
 }
 
 // ================================================================ GUID
